@@ -10,6 +10,7 @@ func init() {
 		Rules: func(r *Run) {
 			ruleLPClass(r, nil)
 			ruleLPDrop(r)
+			ruleCHParseOps(r)
 		},
 	})
 }
